@@ -36,6 +36,9 @@ pub trait CountMinValue: private::Sealed + Copy + Ord {
     /// Performs the + operation.
     fn add(self, other: Self) -> Self;
 
+    /// Performs the + operation, saturating at the numeric bounds of the type.
+    fn saturating_add(self, other: Self) -> Self;
+
     /// Computes the absolute value of `self`.
     fn abs(self) -> Self;
 
@@ -73,6 +76,11 @@ macro_rules! impl_signed {
             #[inline(always)]
             fn add(self, other: Self) -> Self {
                 self + other
+            }
+
+            #[inline(always)]
+            fn saturating_add(self, other: Self) -> Self {
+                <$name>::saturating_add(self, other)
             }
 
             #[inline(always)]
@@ -129,6 +137,11 @@ macro_rules! impl_unsigned {
             #[inline(always)]
             fn add(self, other: Self) -> Self {
                 self + other
+            }
+
+            #[inline(always)]
+            fn saturating_add(self, other: Self) -> Self {
+                <$name>::saturating_add(self, other)
             }
 
             #[inline(always)]
